@@ -154,6 +154,95 @@ def batch_history(max_n, seed, count):
     return res
 
 
+# -- purity on constraint-tree families ----------------------------------------------------------------
+
+CT_SHAPE = (((), (), ()), ((),))
+CT_NAMES = ['Root', 'A', 'B', 'C', 'D']
+
+
+def replay_ctc_pure(tree):
+    """every operation on a model that carries this constraint: the model (tree, attributes, every node of
+    the constraint's expression tree, its printed form) is unchanged afterwards, and a second execution
+    returns what the first returned."""
+    tree = totuple(tree)
+    m = R.build(CT_SHAPE, [(1, 3), (0, 1)], names=CT_NAMES, ctcs=[R.ctc('c0', tree)])
+    snap = R.snapshot(m)
+    txt = [str(c) for c in m.ctcs]
+    ids = [id(c.ast.root) for c in m.ctcs]
+    out = []
+    for cls in OPS:
+        try:
+            r1 = _run(cls(), m)
+        except Exception as exc:      # whether an operation supports the constraint kind is C17/C18's subject; purity must hold anyway
+            r1 = ('raises', type(exc).__name__)
+        if R.snapshot(m) != snap or [str(c) for c in m.ctcs] != txt or [id(c.ast.root) for c in m.ctcs] != ids:
+            out.append('%s modifies the model it analyses: constraint %s is %s afterwards' % (cls.__name__, txt[0], [str(c) for c in m.ctcs][0]))
+            break
+        try:
+            r2 = _run(cls(), m)
+        except Exception as exc:
+            r2 = ('raises', type(exc).__name__)
+        if r1 != r2:
+            out.append('%s: second execution on the same model returns another result (constraint %s)' % (cls.__name__, txt[0]))
+            break
+    return out
+
+
+def batch_ctc_pure(which, lo, hi, seed):
+    from . import c18
+    names = ['A', 'B', 'C']
+    if which == 'depth1':
+        trees = c18.family_depth1_all_ops(names)
+    elif which == 'depth2r':
+        trees = c18.family_depth2_restricted(names)
+    elif which == 'mixed':
+        trees = c18.family_mixed_kinds(names)
+    elif which == 'depth2':
+        trees = c18.all_depth2(names)
+    elif which == 'nnf3':
+        trees = c18.family_nnf3(names + ['D'])
+    elif which == 'nnf3not':
+        trees = c18.family_nnf3(names[:2], True)
+    else:
+        rnd = _random.Random(seed)
+        trees = [c18.random_deep(rnd, names + ['D'], rnd.randint(3, 4)) for _ in range(hi - lo)]
+        lo, hi = 0, len(trees)
+    res = {'instances': 0, 'nontrivial': 0, 'violations': [], 'native_runs': 0, 'skipped_slow': 0}
+    import signal
+
+    class _Slow(BaseException):
+        pass
+
+    fired = [False]
+
+    def _alarm(sig, frm):
+        fired[0] = True
+        signal.alarm(1)
+        raise _Slow()
+    signal.signal(signal.SIGALRM, _alarm)
+    for t in trees[lo:hi]:
+        res['instances'] += 1
+        res['native_runs'] += 2 * len(OPS)
+        res['nontrivial'] += 1 if isinstance(t, tuple) else 0
+        fired[0] = False
+        signal.alarm(3)
+        try:
+            bad = replay_ctc_pure(t)
+        except BaseException:
+            if not fired[0]:
+                raise
+            res['skipped_slow'] += 1      # CNF blow-up of a deep tree inside the metrics: a time limit is not a verdict
+            continue
+        finally:
+            signal.alarm(0)
+        if bad:
+            res['violations'].append({'label': 'constraint-purity', 'detail': bad[0] + ' | tree %r' % (t,), 'replay_func': 'replay_ctc_pure', 'replay_args': [t]})
+            if len(res['violations']) >= 4:
+                return res
+    res['sample'] = {'family': which, 'tree': repr(trees[lo:hi][-1]) if trees[lo:hi] else None}
+    return res
+
+
 # -- random attribute generation -------------------------------------------------------------------
 
 
@@ -409,6 +498,13 @@ def batches(tier, seed):
     step = total // 4 + 1
     b += [('batch_sequences', [n, lo, lo + step, seed + lo]) for lo in range(0, total, step)]
     b += [('batch_gen_native', [N, seed * 17 + i, 60 if tier == 'quick' else 600]) for i in range(4)]
+    # purity of every operation on models carrying one constraint of each tree family (C18's families)
+    b += [('batch_ctc_pure', ['depth1', 0, 100000, seed]), ('batch_ctc_pure', ['mixed', 0, 100000, seed]), ('batch_ctc_pure', ['nnf3not', 0, 100000, seed])]
+    b += [('batch_ctc_pure', ['depth2r', lo, lo + 1352, seed]) for lo in range(0, 4056, 1352)]
+    b += [('batch_ctc_pure', ['nnf3', lo, lo + 2048, seed]) for lo in range(0, 8192, 2048)]
+    b += [('batch_ctc_pure', ['random', 0, 250 if tier == 'quick' else 1500, seed * 19 + i]) for i in range(2 if tier == 'quick' else 12)]
+    if tier != 'quick':
+        b += [('batch_ctc_pure', ['depth2', lo, lo + 4000, seed]) for lo in range(0, 60000, 4000)]
     return b
 
 
@@ -418,6 +514,7 @@ def info(tier):
                         'float ranges: bounds lo/4 .. hi/4+0.25 with |lo|,|hi| <= 9 and the 9-point uniform stub; other floats are outside the claim (plus a native run with the real random module)',
                         'histories of length 2 (E1) and 3 (native batch); the ancestors operation is given the last feature of each model',
                         'FMMetrics is included although its accumulation defect lived in the dependency: repaired by an override in this repository'],
+        'purity_families': 'every operation on a 5-feature model carrying one constraint from: all depth<=1 trees over 23 operators, depth-2 restricted family, mixed arithmetic kinds, AND/OR depth-3 association patterns over 4 names (8192), negated-leaf variant, random depth 3-5' + ('' if tier == 'quick' else ', all 59049 depth<=2 logical trees over 3 names') + ' (native runs: snapshot incl. every AST node, printed form, identity of the AST root; second execution equal)',
         'coverage': {'functions_encoded': [c.__name__ + '.execute/get_result' for c in OPS] + ['generate_random_attribute_values', 'get_random_value_from_domain', 'get_random_value_from_ranges'],
                      'bounds': {'models_E1': 'N<=3 each', 'history_E1': 2, 'history_native': 3, 'draws': '0..20'},
                      'stubs': ['random.choice/randint/uniform']},
